@@ -1,7 +1,7 @@
 SPECIFICATION Spec
 CONSTANTS
   Names <- N2
-  MaxToks = 7
+  MaxToks = 6
   MaxDepth = 3
   ScopedKinds <- AllKinds
 INVARIANTS StackIsLexical NoLeak ImplIsLexical Emit
